@@ -253,8 +253,9 @@ Definition subpacket_length (sp : bytes) : result (N * bytes) :=
   end.
 
 (* signature.go:86 Signature.parse and :186 parseSignatureSubpackets, :205 parseSignatureSubpacket.
+   [emb] = sig.embedded: the signature is being parsed out of an embedded-signature subpacket.
    Fuel: one unit per call; length of the input suffices (Proofs/Rpm.v). *)
-Fixpoint parse_sig4 (fuel : nat) (content : bytes) : result pkt :=
+Fixpoint parse_sig4 (fuel : nat) (emb : bool) (content : bytes) : result pkt :=
   match content with
   | v :: t :: a :: h :: l1 :: l2 :: rest =>
       match fuel with
@@ -265,12 +266,12 @@ Fixpoint parse_sig4 (fuel : nat) (content : bytes) : result pkt :=
           else if negb (hash_known h) then Err "hash function"
           else
             let* (hashed, r1) := need (N.to_nat (l1 * 256 + l2)) rest in
-            let* st1 := parse_subpackets f (mksstate false None false) hashed true in
+            let* st1 := parse_subpackets f emb (mksstate false None false) hashed true in
             if negb (ss_created st1) then Err "no creation time in signature"
             else
               let* (ul, r2) := need 2 r1 in
               let* (unhashed, r3) := need (N.to_nat (nth 0 ul 0 * 256 + nth 1 ul 0)) r2 in
-              let* st2 := parse_subpackets f st1 unhashed false in
+              let* st2 := parse_subpackets f emb st1 unhashed false in
               let* (_, r4) := need 2 r3 in
               match sig_mpis a with
               | None => Panic "unreachable (signature.go:181)"
@@ -280,7 +281,7 @@ Fixpoint parse_sig4 (fuel : nat) (content : bytes) : result pkt :=
   | [] => Err "unexpected EOF"
   | v :: _ => if negb (v =? 4) then Err "signature packet version" else Err "unexpected EOF"
   end
-with parse_subpackets (fuel : nat) (st : sstate) (sp : bytes) (hashed : bool) : result sstate :=
+with parse_subpackets (fuel : nat) (emb : bool) (st : sstate) (sp : bytes) (hashed : bool) : result sstate :=
   match sp with
   | [] => Ok st
   | _ :: _ =>
@@ -297,7 +298,7 @@ with parse_subpackets (fuel : nat) (st : sstate) (sp : bytes) (hashed : bool) : 
                 let ty := t0 mod 128 in
                 let critical := 128 <=? t0 in
                 let plen := length payload in
-                let continue (st' : sstate) := parse_subpackets f st' rest hashed in
+                let continue (st' : sstate) := parse_subpackets f emb st' rest hashed in
                 if ty =? 2 then
                   if negb hashed then Err "signature creation time in non-hashed area"
                   else if negb (Nat.eqb plen 4) then Err "signature creation time not four bytes"
@@ -320,8 +321,9 @@ with parse_subpackets (fuel : nat) (st : sstate) (sp : bytes) (hashed : bool) : 
                   else continue st
                 else if ty =? 32 then
                   if ss_embedded st then Err "Cannot have multiple embedded signatures"
+                  else if emb then Err "embedded signature inside an embedded signature"
                   else
-                    let* e := parse_sig4 f payload in
+                    let* e := parse_sig4 f true payload in
                     match e with
                     | PSig4 et _ _ _ =>
                         if et =? 25 then continue (mksstate (ss_created st) (ss_issuer st) true)
@@ -428,7 +430,7 @@ Definition packet_read (other : bytes -> result unit) (sig : bytes) : result pkt
   if tag =? 2 then
     match content with
     | [] => Err "EOF"                       (* peekVersion *)
-    | v :: _ => if v <? 4 then parse_sig3 content else parse_sig4 (length content) content
+    | v :: _ => if v <? 4 then parse_sig3 content else parse_sig4 (length content) false content
     end
   else if other_packet_tag tag then let* _ := other sig in Ok POther
   else Err "unknown packet type".
@@ -746,3 +748,306 @@ Definition report (p : pkg) : info :=
         ++ opt_attr (bs "SHA-256") (stored (k_sha256 p))
         ++ match report_children p with [] => [(bs "Signature", bs "none")] | _ => [] end)
        (report_children p).
+
+(* ================================================================ Part 5: arbitrary layouts
+
+   A package description that fixes nothing but the file structure: a lead, two header
+   structures whose index entries are ARBITRARY declarations (tag, type, offset, count) over an
+   ARBITRARY store, the padding between them and a payload.  [gpkg_ok] is the boolean
+   well-formedness predicate on (index, store): every entry's data lies inside the store with
+   the count and the type it declares.  No order of tags or offsets, no alignment, no
+   disjointness is asked for (go-rpm asks for none; layouts with rpm's alignment padding, gaps,
+   shared data, a region entry or none are all instances). *)
+
+Record gent := mkgent { ge_tag : N; ge_type : N; ge_off : N; ge_cnt : N }.
+Record ghdr := mkghdr { gh_version : N; gh_reserved : bytes; gh_index : list gent; gh_store : bytes }.
+Record gpkg := mkgpkg {
+  gp_major : N; gp_minor : N; gp_leadrest : bytes;        (* the 90 lead octets after the version *)
+  gp_sig : ghdr; gp_pad : bytes; gp_main : ghdr; gp_payload : bytes }.
+
+Definition enc_gent (e : gent) : bytes :=
+  N_to_be 4 (ge_tag e) ++ N_to_be 4 (ge_type e) ++ N_to_be 4 (ge_off e) ++ N_to_be 4 (ge_cnt e).
+
+Definition ghdr_intro (h : ghdr) : bytes :=
+  header_magic ++ [gh_version h] ++ gh_reserved h
+  ++ N_to_be 4 (lenN (gh_index h)) ++ N_to_be 4 (lenN (gh_store h)).
+
+Definition enc_ghdr (h : ghdr) : bytes := ghdr_intro h ++ flat_map enc_gent (gh_index h) ++ gh_store h.
+
+Definition glead (g : gpkg) : bytes := rpm_magic ++ [gp_major g; gp_minor g] ++ gp_leadrest g.
+
+Definition gencode (g : gpkg) : bytes :=
+  glead g ++ enc_ghdr (gp_sig g) ++ gp_pad g ++ enc_ghdr (gp_main g) ++ gp_payload g.
+
+(* the string that starts at the head of l and the bytes after its NUL; None: no NUL in l *)
+Fixpoint split_nul (l : bytes) : option (bytes * bytes) :=
+  match l with
+  | [] => None
+  | b :: r => if b =? 0 then Some ([], r)
+              else match split_nul r with Some (s, t) => Some (b :: s, t) | None => None end
+  end.
+
+(* the [cnt] consecutive NUL-terminated strings at the head of l; None: l ends first *)
+Fixpoint strings_at (cnt : nat) (l : bytes) : option (list bytes) :=
+  match cnt with
+  | O => Some []
+  | S c => match split_nul l with
+           | None => None
+           | Some (s, t) => match strings_at c t with Some r => Some (s :: r) | None => None end
+           end
+  end.
+
+(* octets per item: CHAR, INT8, BIN 1; INT16 2; INT32 4; INT64 8 *)
+Definition item_size (ty : N) : N := if ty =? 3 then 2 else if ty =? 4 then 4 else if ty =? 5 then 8 else 1.
+Definition is_string_type (ty : N) : bool := (ty =? 6) || (ty =? 8) || (ty =? 9).
+Definition is_fixed_type (ty : N) : bool := ((1 <=? ty) && (ty <=? 5)) || (ty =? 7).
+
+(* one index entry against its store: the data starts inside the store and
+   NULL: nothing more;  CHAR/INT8/INT16/INT32/INT64/BIN: count items of the type's size lie inside;
+   STRING/STRING_ARRAY/I18NSTRING: count NUL-terminated strings lie inside *)
+Definition gent_ok (store : bytes) (e : gent) : bool :=
+  let n := lenN store in
+  (ge_tag e <? 4294967296) && (ge_cnt e <? 4294967296) && (ge_off e <? n)
+  && (if ge_type e =? 0 then true
+      else if is_fixed_type (ge_type e) then ge_off e + ge_cnt e * item_size (ge_type e) <=? n
+      else if is_string_type (ge_type e) then
+        if ge_cnt e <=? n then
+          match strings_at (N.to_nat (ge_cnt e)) (skipn (N.to_nat (ge_off e)) store) with Some _ => true | None => false end
+        else false
+      else false).
+
+Definition ghdr_ok (h : ghdr) : bool :=
+  (gh_version h <? 256) && Nat.eqb (length (gh_reserved h)) 4
+  && (16 * lenN (gh_index h) <=? max_header_size) && (lenN (gh_store h) <=? max_header_size)
+  && forallb (gent_ok (gh_store h)) (gh_index h).
+
+Definition gpkg_ok (g : gpkg) : bool :=
+  ((gp_major g =? 3) || (gp_major g =? 4)) && Nat.eqb (length (gp_leadrest g)) 90
+  && ghdr_ok (gp_sig g) && ghdr_ok (gp_main g)
+  && (lenN (gp_pad g) =? pad_len (lenN (gh_store (gp_sig g))))
+  (* go-rpm reads the main header's padding too, and reads nothing from an exhausted reader *)
+  && (pad_len (lenN (gh_store (gp_main g))) <=? lenN (gp_payload g))
+  && (0 <? lenN (gh_store (gp_main g)) + lenN (gp_payload g)).
+
+(* the typed value that lies at the declared offset *)
+Definition gent_value (store : bytes) (e : gent) : value :=
+  let ty := ge_type e in
+  if ty =? 0 then VNull
+  else if (ty =? 1) || (ty =? 7) then VBytes (slice (ge_off e) (ge_cnt e) store)
+  else if is_fixed_type ty then VInts ty (slice (ge_off e) (ge_cnt e * item_size ty) store)
+  else if is_string_type ty then
+    VStrings (match strings_at (N.to_nat (ge_cnt e)) (skipn (N.to_nat (ge_off e)) store) with
+              | Some l => l | None => [] end)
+  else VNull.
+
+Definition gent_view (store : bytes) (e : gent) : entry :=
+  mkentry (ge_tag e) (ge_type e) (ge_off e) (ge_cnt e) (gent_value store e).
+
+Definition ghdr_view (h : ghdr) : header :=
+  mkheader (gh_version h) (lenN (gh_index h)) (lenN (gh_store h)) (map (gent_view (gh_store h)) (gh_index h)).
+
+Definition gview (g : gpkg) : pkgfile :=
+  mkpkgfile (mklead (gp_major g) (gp_minor g)) (ghdr_view (gp_sig g)) (ghdr_view (gp_main g)).
+
+(* ---- what a header stores under a tag (the first entry that carries the tag) ---- *)
+
+Definition first_with_tag (tag : N) (idx : list gent) : option gent := find (fun e => ge_tag e =? tag) idx.
+
+(* the first string of a STRING / STRING_ARRAY / I18NSTRING entry; empty for every other entry *)
+Definition stored_string (h : ghdr) (tag : N) : bytes :=
+  match first_with_tag tag (gh_index h) with
+  | Some e =>
+      if is_string_type (ge_type e) then
+        match strings_at (N.to_nat (ge_cnt e)) (skipn (N.to_nat (ge_off e)) (gh_store h)) with
+        | Some (s :: _) => s
+        | _ => []
+        end
+      else []
+  | None => []
+  end.
+
+(* the octets of a BIN (or CHAR) entry; empty for every other entry *)
+Definition stored_bytes (h : ghdr) (tag : N) : bytes :=
+  match first_with_tag tag (gh_index h) with
+  | Some e => if (ge_type e =? 7) || (ge_type e =? 1) then slice (ge_off e) (ge_cnt e) (gh_store h) else []
+  | None => []
+  end.
+
+(* ---- signature packets in every form of RFC 4880 4.2 / 5.2 ---- *)
+
+(* a signature subpacket: the form of its length (1, 2 or 5 octets), its type octet
+   (critical bit included) and its body *)
+Record subpkt := mksub { sb_form : N; sb_type : N; sb_data : bytes }.
+
+(* RFC 4880 5.2.3.1 *)
+Definition sub_len_enc (form n : N) : bytes :=
+  if form =? 1 then [n]
+  else if form =? 2 then [192 + (n - 192) / 256; (n - 192) mod 256]
+  else 255 :: N_to_be 4 n.
+Definition sub_len_ok (form n : N) : bool :=
+  if form =? 1 then n <? 192
+  else if form =? 2 then (192 <=? n) && (n <? 16320)
+  else (form =? 5) && (n <? 4294967296).
+
+Definition enc_sub (sp : subpkt) : bytes :=
+  sub_len_enc (sb_form sp) (1 + lenN (sb_data sp)) ++ sb_type sp :: sb_data sp.
+
+(* the body lengths RFC 4880 5.2.3.x prescribe for the subpackets this reader interprets;
+   embedded signatures (type 32) are outside this family; a subpacket of any other type must not
+   be critical.  Outside the hashed area only the issuer is interpreted. *)
+Definition sub_ok (hashed : bool) (sp : subpkt) : bool :=
+  let ty := sb_type sp mod 128 in
+  let n := length (sb_data sp) in
+  (sb_type sp <? 256) && sub_len_ok (sb_form sp) (1 + lenN (sb_data sp))
+  && (if ty =? 2 then hashed && Nat.eqb n 4
+      else if (ty =? 3) || (ty =? 9) then negb hashed || Nat.eqb n 4
+      else if ty =? 16 then Nat.eqb n 8
+      else if ty =? 25 then negb hashed || Nat.eqb n 1
+      else if (ty =? 27) || (ty =? 29) then negb hashed || negb (Nat.eqb n 0)
+      else if ty =? 32 then false
+      else if (ty =? 11) || (ty =? 21) || (ty =? 22) || (ty =? 30) then true
+      else sb_type sp <? 128).
+
+(* the stored issuer: the last issuer subpacket, hashed area first *)
+Definition sub_issuer (acc : option N) (sp : subpkt) : option N :=
+  if sb_type sp mod 128 =? 16 then Some (be_to_N (sb_data sp)) else acc.
+
+(* packet header forms (RFC 4880 4.2): old format with length type 0..3 (3 = indeterminate);
+   new format with a 1-, 2- or 5-octet length; new format with partial body lengths 2^k for the
+   listed k followed by a final 1-, 2- or 5-octet length *)
+Inductive pform : Type :=
+| FOld (lt : N)
+| FNew (f : N)
+| FPartial (ks : list N) (f : N).
+
+Definition new_len_form (f n : N) : bytes :=
+  if f =? 1 then [n]
+  else if f =? 2 then [192 + (n - 192) / 256; (n - 192) mod 256]
+  else 255 :: N_to_be 4 n.
+Definition new_len_ok (f n : N) : bool :=
+  if f =? 1 then n <? 192
+  else if f =? 2 then (192 <=? n) && (n <? 8384)
+  else (f =? 5) && (n <? 4294967296).
+
+Fixpoint partial_chunks (ks : list N) (f : N) (body : bytes) : bytes :=
+  match ks with
+  | [] => new_len_form f (lenN body) ++ body
+  | k :: r => (224 + k) :: firstn (N.to_nat (2 ^ k)) body ++ partial_chunks r f (skipn (N.to_nat (2 ^ k)) body)
+  end.
+Fixpoint partial_ok (ks : list N) (f : N) (n : N) : bool :=
+  match ks with
+  | [] => new_len_ok f n
+  | k :: r => (k <=? 30) && (2 ^ k <=? n) && partial_ok r f (n - 2 ^ k)
+  end.
+
+Definition pform_ok (pf : pform) (n : N) : bool :=
+  (n <? 4294967296) &&
+  match pf with
+  | FOld lt => (lt =? 3) || ((lt <=? 2) && (n <? 256 ^ (2 ^ lt)))
+  | FNew f => new_len_ok f n
+  | FPartial ks f => partial_ok ks f n
+  end.
+
+(* a signature packet (tag 2) around [body] *)
+Definition wrap_sig (pf : pform) (body : bytes) : bytes :=
+  match pf with
+  | FOld lt => (136 + lt) :: (if lt =? 3 then [] else N_to_be (N.to_nat (2 ^ lt)) (lenN body)) ++ body
+  | FNew f => 194 :: new_len_form f (lenN body) ++ body
+  | FPartial ks f => 194 :: partial_chunks ks f body
+  end.
+
+(* a multiprecision integer (RFC 4880 3.2): its bit count and its octets *)
+Definition enc_mpib (m : N * bytes) : bytes := N_to_be 2 (fst m) ++ snd m.
+Definition mpib_ok (m : N * bytes) : bool := (fst m <? 65536) && (lenN (snd m) =? (fst m + 7) / 8).
+
+Record gsig := mkgsig {
+  gs_form : pform;
+  gs_version : N;                               (* 2, 3: a version 3 packet; 4: a version 4 packet *)
+  gs_sigtype : N; gs_algo : N; gs_hash : N;
+  gs_created : N; gs_issuer : N;                (* version 3: fixed fields *)
+  gs_hashed : list subpkt; gs_unhashed : list subpkt;   (* version 4: subpacket areas *)
+  gs_hashtag : bytes; gs_mpis : list (N * bytes) }.
+
+Definition enc_subs (l : list subpkt) : bytes := flat_map enc_sub l.
+
+Definition gsig_body (s : gsig) : bytes :=
+  (if gs_version s <? 4 then
+     [gs_version s; 5; gs_sigtype s] ++ N_to_be 4 (gs_created s) ++ N_to_be 8 (gs_issuer s) ++ [gs_algo s; gs_hash s]
+   else
+     [4; gs_sigtype s; gs_algo s; gs_hash s]
+     ++ N_to_be 2 (lenN (enc_subs (gs_hashed s))) ++ enc_subs (gs_hashed s)
+     ++ N_to_be 2 (lenN (enc_subs (gs_unhashed s))) ++ enc_subs (gs_unhashed s))
+  ++ gs_hashtag s ++ flat_map enc_mpib (gs_mpis s).
+
+Definition gencode_sig (s : gsig) : bytes := wrap_sig (gs_form s) (gsig_body s).
+
+Definition gsig_ok (s : gsig) : bool :=
+  hash_known (gs_hash s)
+  && Nat.eqb (length (gs_hashtag s)) 2
+  && match sig_mpis (gs_algo s) with Some k => Nat.eqb (length (gs_mpis s)) k | None => false end
+  && forallb mpib_ok (gs_mpis s)
+  && pform_ok (gs_form s) (lenN (gsig_body s))
+  && (if gs_version s <? 4 then
+        (2 <=? gs_version s) && sig3_algo_ok (gs_algo s)
+        && (gs_issuer s <? 2 ^ 64) && (gs_created s <? 2 ^ 32)
+      else
+        (gs_version s =? 4) && sig4_algo_ok (gs_algo s)
+        && forallb (sub_ok true) (gs_hashed s) && forallb (sub_ok false) (gs_unhashed s)
+        && existsb (fun sp => sb_type sp mod 128 =? 2) (gs_hashed s)     (* a creation time, 5.2.3.4 *)
+        && (lenN (enc_subs (gs_hashed s)) <? 65536) && (lenN (enc_subs (gs_unhashed s)) <? 65536)).
+
+Definition gsig_issuer (s : gsig) : option N :=
+  if gs_version s <? 4 then Some (gs_issuer s)
+  else fold_left sub_issuer (gs_hashed s ++ gs_unhashed s) None.
+
+(* what packet.Read must return for it *)
+Definition gsig_view (s : gsig) : pkt :=
+  if gs_version s <? 4 then PSig3 (gs_algo s) (gs_hash s) (gs_issuer s)
+  else PSig4 (gs_sigtype s) (gs_algo s) (gs_hash s) (gsig_issuer s).
+
+(* what must be shown for it: algorithm/hash, and the 16 digits of the issuer when one is stored
+   (a packet that carries only an issuer FINGERPRINT subpacket, type 33, stores no issuer key ID:
+   no "Key id" line) *)
+Definition gsig_report (s : gsig) : list (bytes * bytes) :=
+  (bs "Algorithm", pk_name (gs_algo s) ++ bs "/" ++ hash_label (gs_hash s))
+  :: match gsig_issuer s with Some k => [(bs "Key id", fmt_keyid k)] | None => [] end.
+
+(* ---- the report of a package in an arbitrary layout ---- *)
+
+(* [sa tag] = the attributes shown for the signature stored under [tag] *)
+Definition gsig_child (sa : N -> list (bytes * bytes)) (desc : bytes) (h : ghdr) (tag : N) : list info :=
+  match stored_bytes h tag with [] => [] | _ => [Info desc (sa tag) []] end.
+
+Definition greport_children (sa : N -> list (bytes * bytes)) (g : gpkg) : list info :=
+  gsig_child sa (bs "Signature") (gp_sig g) 267 ++ gsig_child sa (bs "Signature") (gp_sig g) 268
+  ++ gsig_child sa (bs "Legacy signature (RPM v3)") (gp_sig g) 1005
+  ++ gsig_child sa (bs "Legacy signature (RPM v3)") (gp_sig g) 1002.
+
+Definition greport_with (sa : N -> list (bytes * bytes)) (g : gpkg) : info :=
+  Info (match stored_string (gp_main g) 1064 with [] => bs "RPM" | v => bs "RPM (version " ++ v ++ bs ")" end)
+       ([(bs "Name", stored_string (gp_main g) 1000); (bs "Version", stored_string (gp_main g) 1001);
+         (bs "Release", stored_string (gp_main g) 1002); (bs "Architecture", stored_string (gp_main g) 1022)]
+        ++ opt_attr (bs "MD5") (hex_of false (stored_bytes (gp_sig g) 1004))
+        ++ opt_attr (bs "SHA-1") (stored_string (gp_sig g) 269)
+        ++ opt_attr (bs "SHA-256") (stored_string (gp_sig g) 273)
+        ++ match greport_children sa g with [] => [(bs "Signature", bs "none")] | _ => [] end)
+       (greport_children sa g).
+
+(* the four signature tags hold nothing or a well-formed signature packet *)
+Record gsigs := mkgsigs { sg_dsa : option gsig; sg_rsa : option gsig; sg_gpg : option gsig; sg_pgp : option gsig }.
+
+Definition sig_at (sg : gsigs) (tag : N) : option gsig :=
+  if tag =? 267 then sg_dsa sg else if tag =? 268 then sg_rsa sg
+  else if tag =? 1005 then sg_gpg sg else if tag =? 1002 then sg_pgp sg else None.
+
+Definition gsig_stored (g : gpkg) (sg : gsigs) (tag : N) : bool :=
+  match sig_at sg tag with
+  | None => match stored_bytes (gp_sig g) tag with [] => true | _ => false end
+  | Some s => gsig_ok s && bytes_eqb (stored_bytes (gp_sig g) tag) (gencode_sig s)
+  end.
+
+Definition gsigs_ok (g : gpkg) (sg : gsigs) : bool :=
+  gsig_stored g sg 267 && gsig_stored g sg 268 && gsig_stored g sg 1005 && gsig_stored g sg 1002.
+
+Definition greport (g : gpkg) (sg : gsigs) : info :=
+  greport_with (fun tag => match sig_at sg tag with Some s => gsig_report s | None => [] end) g.
